@@ -78,6 +78,37 @@ def ncls(n):
     return n if n <= 48 else "2^%d" % (n.bit_length() - 1)
 
 
+def gen_mid(ctx, quick):
+    """mid-range sweep: EVERY length in a mid range (where block / cache-line fast paths and their thresholds live) and
+    lengths around every multiple of 64 up to 1 KiB, x EVERY destination position inside a 128-byte line (the arena base
+    is page aligned) x a few source misalignments, for memcpy, forward- and backward-overlapping memmove and memset"""
+    ns = set(range(41, 161 if quick else 321))
+    for m in range(64, 1025, 64):
+        for dlt in (-9, -8, -7, -2, -1, 0, 1, 2, 7, 8, 9):
+            ns.add(m + dlt)
+    cases = []
+    line = 64 if quick else 128
+    base = 256           # multiple of 128: dest position within the line is exactly dm
+    for n in sorted(ns):
+        for dm in range(line):
+            d = base + dm
+            sm = (dm * 5 + n) % 16
+            src = 16 * ((d + n + RZ) // 16 + 2) + sm          # disjoint, above dest
+            seed = 1 + ((n + dm) & 3)
+            k = (n + dm) % 4
+            if k == 0:
+                cases.append("cpy %d %d %d %d %d" % (src + n + RZ, seed, d, src, n))
+            elif k == 1:
+                delta = [1, 7, 8, 9, 63, 64, 65][(n // 4 + dm) % 7]      # forward copy with overlap: dest below src
+                cases.append("mov %d %d %d %d %d" % (d + delta + n + RZ, seed, d, d + delta, n))
+            elif k == 2:
+                delta = [1, 7, 8, 9, 63, 64, 65][(n // 4 + dm) % 7]      # backward copy with overlap: dest above src
+                cases.append("mov %d %d %d %d %d" % (d + n + RZ, seed, d, d - delta, n))
+            else:
+                cases.append("set %d %d %d %d %d" % (d + n + RZ, seed, d, [0, 0xFF, 0x5A, -2][(n + dm) // 4 % 4], n))
+    return cases
+
+
 def gen_small(ctx, nmax):
     """exhaustive: n in 0..=nmax, misalignments 0..=15, every overlap distance both ways, fill bytes,
     first-difference positions"""
@@ -285,8 +316,9 @@ def run(ctx):
     ctx.rule = ("cases = exhaustive n in 0..=%d x destination misalignment 0..=15 x (memcpy: source misalignment 0..=15, both orders; "
                 "memmove/copy_forward/copy_backward: every distance dest-src in -(n+2)..=n+2; memset: 8 fill values incl. negative and >255 c_int; "
                 "memcmp/bcmp: every first-difference position, none, and a difference just outside the range, with unsigned-extreme byte pairs) "
+                "plus a mid-range sweep (every n in 41..=%d and around every multiple of 64 up to 1 KiB x every destination position inside a %d-byte line: memcpy, memmove overlapping either way, memset) "
                 "plus sizes sampled up to 1 MiB from VERIF_SEED, each in a pattern-filled arena with >=32-byte red zones, whole arena hashed; "
-                "distinct_nontrivial = distinct (op, n (bucketed above 48), dest mod 8, src mod 8, overlap class) classes" % nmax)
+                "distinct_nontrivial = distinct (op, n (bucketed above 48), dest mod 8, src mod 8, overlap class) classes" % (nmax, 160 if quick else 320, 64 if quick else 128))
     ctx.assumptions += [
         "the model Model/MemFns.lean describes tiny-start/src/symbols/mem.rs (checked by the correspondence streams of this run, debug and release builds of the textually included file)",
         "a word access is 8 byte reads then 8 byte writes; misaligned word reads through read_usize_unaligned are allowed (x86-64/aarch64)",
@@ -296,7 +328,7 @@ def run(ctx):
     ctx.trusted.append("python oracle in checks/c08.py (C semantics by bytes slicing), arena hash = little-endian integer mod 2^55-55")
     ok = C.lean_prove(ctx, "TinyVerif.Props.C08", drivers=["drv_c08"])
     drv = [C.driver_path("drv_c08")]
-    small = gen_small(ctx, nmax)
+    small = gen_small(ctx, nmax) + gen_mid(ctx, quick)
     big = gen_big(ctx, 96, 8) if quick else gen_big(ctx, 1600, 80)
     for c in small + big:
         op, size, seed, a, b, n, _ = parse(c)
